@@ -17,7 +17,7 @@ import (
 func GenC11(verifSeed uint64, run int) *Scenario {
 	seed := Mix(verifSeed, 11, uint64(run))
 	g := NewRng(seed)
-	w := GenWorld(g, GenOpts{Small: true, SharedBias: true})
+	w := GenWorld(g, GenOpts{Small: true, SharedBias: true, PartialInvalidP: 0.5})
 	plan := &C11Plan{Perms: true, Short: true, NRandom: 40, HistSeed: g.Uint64()}
 	return &Scenario{Property: "C11", VerifSeed: verifSeed, Run: run, RunSeed: seed, World: w, C11: plan}
 }
@@ -259,6 +259,16 @@ func RunC11(rt *Runtime, sc *Scenario) RunResult {
 		if err != nil {
 			res.Trouble = "reference setup: " + err.Error()
 			return res
+		}
+		if contains(w.ExpectFail, f) {
+			// invalid for this format by construction: it must fail alone too
+			if ok {
+				res.Trouble = fmt.Sprintf("generator: %s was expected to be invalid for this configuration but builds", f)
+				return res
+			}
+			res.Counters["probe.format_fails_by_construction"]++
+			res.Notes = res.Notes[:len(res.Notes)-len(ref.Notes)]
+			continue
 		}
 		if !ok {
 			res.Counters["reference_failed"]++
